@@ -3,6 +3,7 @@ import Driver.Lru
 import Driver.Search
 import Driver.Validate
 import Driver.Metrics
+import Driver.Retry
 
 namespace Driver
 
@@ -15,6 +16,7 @@ def dispatch (dom : String) (ops : Array String) : Array String :=
   | "search" => Search.runCase ops
   | "validate" => Validate.runCase ops
   | "metrics" => Metrics.runCase ops
+  | "retry" => Retry.runCase ops
   | _ => ops.map (fun _ => "unknown-domain")
 
 end Driver
